@@ -693,6 +693,10 @@ func (d *dsGen) plugin() *dsPlugin {
 		if len(st.Handlers) > 0 && d.p(0.5) {
 			h := st.Handlers[d.g.R.Intn(len(st.Handlers))]
 			e := &dsSignal{ID: h.V.ID, Data: d.scope(false), Disp: d.disp(0.5)}
+			// both data scopes need linking: references to objects of their own scope, one of them
+			// recursive (the root refers to itself), with different shapes in the two scopes
+			dsAddOwnRefs(h.V.Data, "item", false)
+			dsAddOwnRefs(e.Data, "next", true)
 			if len(st.Emitters) > 0 {
 				st.Emitters[0] = dsKeyed[*dsSignal]{h.Key, e}
 			} else {
@@ -714,6 +718,36 @@ func (d *dsGen) plugin() *dsPlugin {
 		}
 	}
 	return p
+}
+
+// dsAddOwnRefs gives the root object of a scope an optional reference to an object of the same
+// scope (to the root itself when recursive) unless the property exists already.
+func dsAddOwnRefs(sc *dsTy, name string, recursive bool) {
+	if sc == nil || len(sc.Objs) == 0 {
+		return
+	}
+	for _, o := range sc.Objs {
+		if o.ID != sc.Root {
+			continue
+		}
+		for _, p := range o.Ty.Props {
+			if p.Name == name {
+				return
+			}
+		}
+		target := sc.Objs[len(sc.Objs)-1].ID
+		if recursive {
+			target = sc.Root
+		}
+		if len(o.Ty.Props) == 0 {
+			// never a single-property object that refers to itself (known finding D13)
+			o.Ty.Props = append(o.Ty.Props, dsNamedProp{"pad", &dsProp{Ty: &dsTy{T: "str"}}})
+		}
+		o.Ty.Props = append(o.Ty.Props, dsNamedProp{name, &dsProp{Ty: &dsTy{T: "ref", ID: target}}})
+		if recursive {
+			o.Ty.Props = append(o.Ty.Props, dsNamedProp{name + "s", &dsProp{Ty: &dsTy{T: "list", Item: &dsTy{T: "ref", ID: target}}}})
+		}
+	}
 }
 
 // aliased: some step is registered under a key other than its ID (a callable schema cannot express that)
